@@ -1,6 +1,8 @@
 package mem2reg
 
 import (
+	"sort"
+
 	"github.com/gogpu/naga/ir"
 )
 
@@ -63,10 +65,23 @@ func newPhiWalker(ctx *promotionContext) *phiWalker {
 		candidates:   selectStructuredCandidates(ctx),
 	}
 	// Seed initial values from each candidate's Init or a fresh ZeroValue.
-	for v := range w.candidates {
+	// initialValueOf may append expressions, so visit candidates in a fixed order.
+	for _, v := range sortedVars(w.candidates) {
 		w.currentValue[v] = initialValueOf(ctx, v)
 	}
 	return w
+}
+
+// sortedVars returns the variable indices of a candidate set in ascending
+// order. Phi nodes and synthesized expressions are created while walking the
+// set, so the walk order must not depend on Go's map iteration order.
+func sortedVars(set map[uint32]struct{}) []uint32 {
+	out := make([]uint32, 0, len(set))
+	for v := range set {
+		out = append(out, v)
+	}
+	sort.Slice(out, func(i, j int) bool { return out[i] < out[j] })
+	return out
 }
 
 // selectStructuredCandidates returns variables eligible for Phase B
@@ -231,7 +246,7 @@ func (w *phiWalker) handleIf(stmtPtr *ir.Statement) []ir.Statement {
 	}
 
 	var phis []ir.Statement
-	for v := range w.candidates {
+	for _, v := range sortedVars(w.candidates) {
 		va, haveA := acceptValues[v]
 		vr, haveR := rejectValues[v]
 		if !haveA && !haveR {
@@ -282,7 +297,7 @@ func (w *phiWalker) handleSwitch(stmtPtr *ir.Statement) []ir.Statement {
 	stmtPtr.Kind = ir.StmtSwitch{Selector: sk.Selector, Cases: cases}
 
 	var phis []ir.Statement
-	for v := range w.candidates {
+	for _, v := range sortedVars(w.candidates) {
 		// Decide whether ANY case wrote to v.
 		writes := false
 		for ci := range caseValues {
